@@ -79,6 +79,7 @@ def _pool(m, tier):
     for k in range(0, m, 11):
         P["logE"][k] = (6.0, 12.0, 8.0, 7.25)[(k // 11) % 4]
     P["u"] = np.array([r.uniform(1e-6, 1.0 - 1e-6) for _ in range(m)])
+    P["u"][2] = 0.0  # numpy's uniform generators draw from [0, 1): exactly zero is a legal number
     # near-duplicates (not exact repeats) in the per-event inputs of the tau and decay stages
     for k in range(5, m, 13):
         P["logE"][k] = P["logE"][k - 1] * (1.0 + 3e-9)
@@ -193,12 +194,28 @@ class Memo:
 _FAILED = object()
 
 
+_FP_MODES = (None, None, None, None, None, None, {"divide": "raise"}, {"all": "raise"})
+
+
 def _guard_args(ctx, stage, opi, args, fn, fresh=None):
     """Calls fn(); the caller's arrays must be unchanged afterwards.  If the call raises on the
     long-lived object, the same batch is given to a FRESH object: if that one accepts it, the
     failure depends on the call history (a violation); if it raises too, the stage simply does
     not accept this input, which is not this property's business."""
     before = [histsim.abytes(a) for a in args]
+    # the caller's numpy floating-point error mode is part of the environment a stage runs in: a
+    # stage may raise under 'raise' (loud), but what it RETURNS is the same function of the events
+    fpm = _FP_MODES[ctx.describe.get("fp_error_mode", 0)]
+    if fpm and fresh is not None:
+        fn0, fresh0 = fn, fresh
+
+        def fn():
+            with np.errstate(**fpm):
+                return fn0()
+
+        def fresh():
+            with np.errstate(**fpm):
+                return fresh0()
     try:
         out = fn()
     except Violation:
@@ -206,6 +223,8 @@ def _guard_args(ctx, stage, opi, args, fn, fresh=None):
     except Exception as e:  # noqa: BLE001
         if fresh is None:
             raise
+        if fpm and isinstance(e, FloatingPointError):
+            ctx.probes["stage_raises_under_fp_error_mode"] += 1
         try:
             fresh()
         except Exception:  # noqa: BLE001
@@ -320,6 +339,9 @@ def scn_history(ctx):
     big = ch.draw(6, "big_pool") == 5
     m = 20001 if big else 8 + ch.draw(33, "pool_size")
     P = _pool(m, tier)
+    ctx.describe["fp_error_mode"] = ch.draw(len(_FP_MODES), "fp_error_mode")
+    if _FP_MODES[ctx.describe["fp_error_mode"]]:
+        ctx.probes["history_under_fp_error_mode_raise"] += 1
     cfg, cdesc = _config(ch)
     tcfg = cfg.model_copy(deep=True)
     tcfg.simulation.mode = "Target"
@@ -460,6 +482,7 @@ def scn_history(ctx):
                 g = obj("geom")
                 u = np.ascontiguousarray(P["u4"][:, idx]) if ch.draw(4, "u_layout") else np.asfortranarray(P["u4"][:, idx])
                 if _guard_args(ctx, "RegionGeom.throw", opi, [u], lambda: g.throw(u), lambda: RegionGeom(cfg).throw(np.array(u))) is _FAILED:
+                    last_throw.pop("geom", None)  # a throw that raised leaves the object half-updated
                     continue
                 outs = _geom_outputs(ctx, g, n)
                 if outs is not None:
@@ -508,6 +531,7 @@ def scn_history(ctx):
                 g = obj("too")
                 t = L(P["tfrac"][idx])
                 if _guard_args(ctx, "RegionGeomToO.throw", opi, [t], lambda: g.throw(t), lambda: RegionGeomToO(tcfg).throw(np.array(t))) is _FAILED:
+                    last_throw.pop("too", None)  # a throw that raised leaves the object half-updated
                     continue
                 outs = _too_outputs(ctx, g, n)
                 if outs is not None:
@@ -540,8 +564,16 @@ def scn_history(ctx):
                 def call():
                     return g.mcintegral(trig, cth, pex, thr, 1.0, 1.0, lenDec=lend, method=method)
 
-                r1 = _guard_args(ctx, name, opi, margs, call)
-                r2 = _guard_args(ctx, name, opi, margs, call)
+                fpm = _FP_MODES[ctx.describe.get("fp_error_mode", 0)]
+                try:
+                    with np.errstate(**(fpm or {})):
+                        r1 = _guard_args(ctx, name, opi, margs, call)
+                        r2 = _guard_args(ctx, name, opi, margs, call)
+                except FloatingPointError:
+                    if not fpm:
+                        raise
+                    ctx.probes["stage_raises_under_fp_error_mode"] += 1
+                    continue
                 b1 = [histsim.abytes(np.asarray(x, dtype=np.float64)) for x in r1]
                 b2 = [histsim.abytes(np.asarray(x, dtype=np.float64)) for x in r2]
                 if b1 != b2:
